@@ -1384,6 +1384,13 @@ class Evaluator:
                     return Row(base, i)
                 raise Outside("matrix subscript")
             if isinstance(n.slice, ast.Slice):
+                # m[:k] : the first rows of a matrix (row contents are not tracked, only the count; slice.indices semantics)
+                if n.slice.lower is None and n.slice.step is None and n.slice.upper is not None:
+                    k, r = Z(self.eval(n.slice.upper)), Z(base.rows)
+                    rows = simp(z3.If(k < 0, z3.If(r + k < 0, 0, r + k), z3.If(k < r, k, r)))
+                    m = Mat(f"{base.name}[:k{next(_fresh)}]", rows, base.cols, base.dtype)
+                    m.prefix_of = base.name
+                    return m
                 raise Outside("matrix row slice")
             i = self.eval(n.slice)
             self.wd(z3.And(Z(i) >= 0, Z(i) < Z(base.rows)), "row_index", n)
